@@ -134,11 +134,11 @@ func checkNegotiator(c *Ctx, neg *ssa.Function) {
 	nRet := 0
 	ir.EachInstr(neg, func(_ *ssa.BasicBlock, _ int, in ssa.Instruction) {
 		r, ok := in.(*ssa.Return)
-		if !ok || len(r.Results) != 1 {
+		if !ok || len(ir.Results(r)) != 1 {
 			return
 		}
 		nRet++
-		res := r.Results[0]
+		res := ir.Results(r)[0]
 		// default: a load of a string field of the receiver
 		if f, _, ok := ir.LoadedField(res); ok {
 			defField = f.Key()
@@ -644,9 +644,9 @@ func discoverFlag(c *Ctx, T *types.Named) *flagInfo {
 			continue
 		}
 		ir.EachInstr(fn, func(_ *ssa.BasicBlock, _ int, in ssa.Instruction) {
-			if r, ok := in.(*ssa.Return); ok && len(r.Results) == 1 {
+			if r, ok := in.(*ssa.Return); ok && len(ir.Results(r)) == 1 {
 				tmp := &flagInfo{field: fi.field, getter: map[*ssa.Function]bool{}}
-				if tmp.isRead(unspill(r.Results[0])) {
+				if tmp.isRead(unspill(ir.Results(r)[0])) {
 					fi.getter[fn] = true
 				}
 			}
@@ -827,8 +827,8 @@ func c16Typestate(c *Ctx, T *types.Named, fi *flagInfo, reachesSend func(ssa.Cal
 			sprintf("%s.Initialize marks the client initialized although %s: a failed handshake leaves the client initialized", tn, why))
 		// no error return reachable after the flag is set
 		esc := flow.ExitsAvoiding(initM, in, func(x ssa.Instruction) bool {
-			if r, ok := x.(*ssa.Return); ok && len(r.Results) > 0 {
-				return ir.IsNilConst(r.Results[len(r.Results)-1])
+			if r, ok := x.(*ssa.Return); ok && len(ir.Results(r)) > 0 {
+				return ir.IsNilConst(ir.Results(r)[len(ir.Results(r))-1])
 			}
 			if v2, ok := fi.write(x); ok && v2 == "false" {
 				return true
